@@ -106,6 +106,8 @@ func C01(c *fw.Ctx) {
 			c.Sample(map[string]interface{}{"stream": label, "root": sampleDoc(j.Files[j.Root]), "error": res.Err.Msg, "line": res.Err.Line})
 		}
 	})
+	// what comes after the scanner has no step counter: CPU time of the build on documents that repeat one construct n and 4n times
+	scalingMonitor(c, c.Pool(false, 8), nil)
 	c.Extra("scanner_states_seen", states.len())
 	c.Extra("max_steps_per_byte", maxMu.v)
 	v := c.Hist("verdicts")
